@@ -15,6 +15,8 @@ const USE_GX: &str = "def test_a(gx):\n    pass\n";
 const USE_FX_GX: &str = "def test_b(fx, gx):\n    pass\n";
 const USE_NONE: &str = "def test_a():\n    pass\n";
 const CONF_IMPORT: &str = "from helper import *\n";
+const DEF_FX_DEPS_A: &str = "import pytest\n\n@pytest.fixture\ndef fx(dep_a, gx):\n    return 1\n";
+const DEF_FX_DEPS_B: &str = "import pytest\n\n@pytest.fixture\ndef fx(dep_b):\n    return 2\n";
 const USE_FX_TWICE_A: &str = "def test_a1(fx):\n    pass\n\ndef test_a2(fx, gx):\n    pass\n";
 const USE_FX_TWICE_B: &str = "def test_b1(fx):\n    pass\n\ndef test_b2(gx, fx):\n    pass\n";
 
@@ -73,6 +75,11 @@ pub fn scenarios(thorough: bool) -> Vec<Scenario> {
             name: "s11: two scan workers on test files that each request fx twice (their reverse-index entries may alternate)".into(),
             pre: vec![analyze("conftest.py", DEF_FX_GX)],
             threads: vec![vec![analyze_fresh("a/test_a.py", USE_FX_TWICE_A)], vec![analyze_fresh("b/test_b.py", USE_FX_TWICE_B)]],
+        },
+        Scenario {
+            name: "s12: A and B both define fx, each with parameters of its own".into(),
+            pre: vec![],
+            threads: vec![vec![analyze_fresh("a/conftest.py", DEF_FX_DEPS_A)], vec![analyze("b/conftest.py", DEF_FX_DEPS_B)]],
         },
     ];
     if thorough {
